@@ -27,6 +27,7 @@ Verdict(i) ==
   \cup B("VipInjective", VipInjective, pre, post, first)
   \cup B("VipPoolDisjoint", VipPoolDisjoint, pre, post, first)
   \cup B("AdvertisedVipCurrentProxy", AdvertisedVipCurrentProxy, pre, post, first)
+  \cup B("AdvertisedVipCurrentProxyImported", AdvertisedVipCurrentProxyImported, pre, post, first)
   \cup B("AdvertisedVipCurrentOwn", AdvertisedVipCurrentOwn, pre, post, first)
   \cup B("AdvertisedVipCurrentGateway", AdvertisedVipCurrentGateway, pre, post, first)
   \cup B("AdvertisedVipStaleGatewayLink", AdvertisedVipStaleGatewayLink, pre, post, first)
